@@ -984,6 +984,42 @@ def d13_filtered_traversal_recursion(chk: Check) -> None:
                          "/".join(sorted(ks - allowed))))
 
 
+def d15_leaf_means_no_container(chk: Check) -> None:
+    """`Nodes.node_is_leaf` answers "not a container" by listing the
+    container classes.  ruamel's CommentedSet is *not* a subclass of the
+    builtin set (it derives from MutableSet), so it has to be listed by
+    name: otherwise every `!!set` counts as a scalar -- a tag request wraps
+    the whole set in a TaggedScalar that cannot be dumped, and any handler
+    that leaves early for leaves never looks at the members."""
+    from sa.ladders import EXTERNAL_BASES
+    prog = chk.prog
+    chk.rule("C01-D15", "node_is_leaf names every container kind the "
+             "evaluator has arms for, CommentedSet included (it is no "
+             "subclass of set)", floor=3)
+    fi = prog.func("Nodes.node_is_leaf")
+    tests = [c for c in walk_local(fi.node) if isinstance(c, ast.Call) and
+             src(c.func) == "isinstance" and len(c.args) == 2]
+    if len(tests) != 1:
+        raise AnalysisError("container test of node_is_leaf not found")
+    spec = tests[0].args[1]
+    named = {src(e).split(".")[-1] for e in
+             (spec.elts if isinstance(spec, ast.Tuple) else [spec])}
+    covered = set(named)
+    for k, bases in EXTERNAL_BASES.items():
+        if set(bases) & named:
+            covered.add(k)
+    for kind in ("CommentedMap", "CommentedSeq", "CommentedSet"):
+        text = "node_is_leaf({})".format(kind)
+        if kind in covered:
+            chk.ok("C01-D15", fi, tests[0], text, "False: listed, or a "
+                   "subclass of a listed class")
+        else:
+            chk.fail("C01-D15", fi, tests[0], text,
+                     "{} is neither listed nor a subclass of {}: such a "
+                     "container is treated as a scalar".format(
+                         kind, sorted(named)))
+
+
 def d5b_scalars_have_no_attributes(chk: Check) -> None:
     """`[name=value]` on a scalar: a scalar has no attribute `name`, so the
     plain search does not select it (and the inverted one does).  Only the
@@ -1033,6 +1069,7 @@ def d5b_scalars_have_no_attributes(chk: Check) -> None:
 def run(chk: Check) -> None:
     d6b_guard_completeness(chk)
     d13_filtered_traversal_recursion(chk)
+    d15_leaf_means_no_container(chk)
     from rules.shared import merge_identity_rule
     merge_identity_rule(chk, "C01-D14", ("yamlpath/processor.py",), 3)
     d1_dispatch(chk)
